@@ -92,6 +92,7 @@ class PerPoolPerThreadInfo {
 struct InlineDepthGuard {
   InlineDepthGuard() : depth_(PerPoolPerThreadInfo::inlineDepth()) {
     ++depth_;
+    DISPENSO_VERIF_NOTE("InlGuard", this, depth_, 0);
   }
   ~InlineDepthGuard() noexcept {
     --depth_;
